@@ -88,6 +88,8 @@ def run(ctx):
         script += [{"op": "execute", "p": "x1p", "ctx": base["exec_ctx"][0], "how": "exc:TimeoutError"}, {"op": "execute", "p": "x2p", "ctx": base["exec_ctx"][-1], "how": "exc:TimeoutError"}]
         # (... or that the framework's own machinery raises for reasons of its own: RuntimeError)
         script += [{"op": "execute", "p": "x1p", "ctx": base["exec_ctx"][-1], "how": "exc:RuntimeError"}, {"op": "execute", "p": "x2p", "ctx": base["exec_ctx"][0], "how": "exc:LookupError"}]
+        # (... or an exception GROUP, with one member: it is the group that the payload raised)
+        script += [{"op": "execute", "p": "x1p", "ctx": base["exec_ctx"][0], "how": "exc:Group1"}]
         script += [{"op": "step", "p": b} for b in base["pre_all"]] + [{"op": "polls", "n": 2}]
         extra.append({"seed": ctx.seed, "jitter": 0.0, "payloads": base["payloads"], "script": script, "shape": "targeted-execute-raises-timeouterror-" + xf})
     # a payload may RETURN an exception object (it is a value like any other), and execute() may
@@ -100,6 +102,15 @@ def run(ctx):
         script += [{"op": "execute", "p": "x1p", "ctx": base["exec_ctx"][0], "how": "val:excobj"}, {"op": "execute", "p": "x2p", "ctx": base["exec_ctx"][-1], "how": "val:baseobj"}] + own
         script += [{"op": "step", "p": b} for b in base["pre_all"]] + [{"op": "polls", "n": 2}]
         extra.append({"seed": ctx.seed, "jitter": 0.0, "payloads": base["payloads"], "script": script, "shape": "targeted-execute-returns-exception-object"})
+    # execute in a first run of the runtime, a graceful stop, a second run of the same runtime
+    # and execute again (the second run is validated as an epoch of its own)
+    for k, xf in enumerate(scen.FLAVS):
+        extra.append({"seed": ctx.seed + k, "jitter": 0.0, "reaccept": True, "epoch": 2, "payloads": {"a1": {"flavour": "asyncio", "cleanup": 1}, "b1": {"flavour": "trio"}, "x1p": {"flavour": xf}, "x2p": {"flavour": xf, "args": [1]}},
+                      "script": [{"op": "adopt", "p": "a1"}, {"op": "accept"}, {"op": "wait_running"}, {"op": "wait_start", "p": "a1"}, {"op": "execute", "p": "x1p", "ctx": "thread", "how": "val:x"},
+                                 {"op": "shutdown", "ctx": "thread", "wait": True}, {"op": "wait_end", "timeout": 4.0},
+                                 {"op": "adopt", "p": "b1", "ctx": "thread", "force": True}, {"op": "reaccept_start"}, {"op": "wait_start", "p": "b1", "force": True},
+                                 {"op": "execute", "p": "x2p", "ctx": "thread", "how": "val:obj", "force": True}, {"op": "step", "p": "b1", "force": True},
+                                 {"op": "shutdown", "ctx": "thread", "wait": True}, {"op": "reaccept_wait", "timeout": 4.0}], "shape": "targeted-execute-after-restart"})
     # execute() from a thread payload while the runtime is closing (the service loop has already
     # left, the runners are still up): the outcome is handed over all the same
     for f in ("asyncio", "trio"):
